@@ -140,9 +140,12 @@ def _mk(ptype):
     loops = {}
     if ptype.startswith('lagrange'):
         pass
-    contract('C15/%s/value' % ptype, ['C15'], fn)(lambda h, p=ptype: _value_case(h, p))
+    # the penalties generated from constraint text (C14) are stacks of the two quadratic types: their contracts are part
+    # of C14's "equal to the documented sum of per-line penalty terms"
+    props = ['C15', 'C14'] if ptype in ('quadratic_equality', 'quadratic_inequality') else ['C15']
+    contract('C15/%s/value' % ptype, props, fn)(lambda h, p=ptype: _value_case(h, p))
     contract('C15/%s/error' % ptype, ['C15'], P + ptype + '.error')(lambda h, p=ptype: _error_case(h, p))
-    contract('C15/%s/iter-clear' % ptype, ['C15'], P + ptype + '.iter',
+    contract('C15/%s/iter-clear' % ptype, props, P + ptype + '.iter',
              loops=dict([loop('mystic/penalty.py', ptype + '.clear', 0,
                               '[_y.pop() for i in range(len(_y))]',
                               ['len(_y) == entry(len(_y)) - _i_'], modifies=['_y'])]))(
@@ -153,8 +156,10 @@ for _p in EQ + INEQ:
     _mk(_p)
 
 for _o, _i in [('quadratic_equality', 'quadratic_inequality'), ('linear_inequality', 'quadratic_equality'),
-               ('uniform_equality', 'linear_equality'), ('quadratic_inequality', 'uniform_inequality')]:
-    contract('C15/stack/%s(%s)' % (_o, _i), ['C15'], P + _o + '.dec.func')(lambda h, o=_o, i=_i: _stack_case(h, o, i))
+               ('uniform_equality', 'linear_equality'), ('quadratic_inequality', 'uniform_inequality'),
+               ('quadratic_inequality', 'quadratic_inequality'), ('quadratic_inequality', 'quadratic_equality')]:
+    contract('C15/stack/%s(%s)' % (_o, _i), ['C15', 'C14'] if 'quadratic' in _o and 'quadratic' in _i else ['C15'],
+             P + _o + '.dec.func')(lambda h, o=_o, i=_i: _stack_case(h, o, i))
 
 
 # ---------------------------------------------------------------- Lagrange types with iteration history
@@ -296,5 +301,8 @@ def _iter_levels(h, outer, inner):
 
 for _o, _i in [('quadratic_equality', 'quadratic_inequality'), ('linear_inequality', 'lagrange_equality'),
                ('uniform_equality', 'barrier_inequality'), ('lagrange_inequality', 'uniform_inequality'),
-               ('barrier_inequality', 'linear_equality')]:
-    contract('C15/stack-iter/%s(%s)' % (_o, _i), ['C15'], P + _o + '.iter')(lambda h, o=_o, i=_i: _iter_levels(h, o, i))
+               ('barrier_inequality', 'linear_equality'), ('quadratic_inequality', 'quadratic_equality'),
+               ('quadratic_inequality', 'quadratic_inequality'), ('linear_equality', 'uniform_equality'),
+               ('uniform_inequality', 'lagrange_inequality'), ('lagrange_equality', 'linear_inequality')]:
+    contract('C15/stack-iter/%s(%s)' % (_o, _i), ['C15', 'C14'] if 'quadratic' in _o and 'quadratic' in _i else ['C15'],
+             P + _o + '.iter')(lambda h, o=_o, i=_i: _iter_levels(h, o, i))
